@@ -224,7 +224,7 @@ func checkC17(c C17Case) Verdict {
 	if c.Src != "" {
 		n1, err := parse.Expr(c.Src)
 		if err != nil {
-			return excluded("not an expression")
+			return ok(false, "source-string:rejected") // the round trip is about expressions the parser accepts
 		}
 		t1, err := fromAST(n1)
 		if err != nil {
@@ -335,7 +335,29 @@ func checkC17(c C17Case) Verdict {
 	return ok(nt, "expression")
 }
 
+// c17Spellings are literal spellings at the edges of what the scanner and the number conversions take
+// (a spelling the parser rejects is not judged; one it accepts must survive the round trip).
+var c17Spellings = []string{"1e999", "-1e999", "1e309", "1.8e308", "1.7976931348623157e308", "-1.7976931348623157e308", "1e-999", "5e-324", "4.9e-324", "2.2250738585072014e-308",
+	"0.1e1", "1E5", "1e+5", "1e-5", "1.0e0", "0.0", "-0.0", "0e0", "9223372036854775807", "-9223372036854775808", "9223372036854775808", "0x7FFFFFFFFFFFFFFF", "0xFFFFFFFFFFFFFFFF", "0x0", "00", "007",
+	"123456789012345678901234567890", "1.", ".5", "1.5.2", "'\\u0000'", "'\\uD834\\uDD1E'", "'\\uFFFF'", "1e21", "1e-7", "123456789.125", "0.000001", "0.0000001", "100000000000000000000.0", "1000000000000000000000.0"}
+
 func genC17(t *rapid.T) C17Case {
+	if rapid.IntRange(0, 19).Draw(t, "spelling") == 0 {
+		a := rapid.SampledFrom(c17Spellings).Draw(t, "a")
+		switch rapid.IntRange(0, 5).Draw(t, "ctx") {
+		case 0:
+			return C17Case{Src: a}
+		case 1:
+			return C17Case{Src: "[" + a + ", " + rapid.SampledFrom(c17Spellings).Draw(t, "b") + "]"}
+		case 2:
+			return C17Case{Src: a + " " + rapid.SampledFrom([]string{"+", "-", "*", "/", "%", "<", "==", "?:"}).Draw(t, "op") + " " + rapid.SampledFrom(c17Spellings).Draw(t, "b")}
+		case 3:
+			return C17Case{Src: "-" + a}
+		case 4:
+			return C17Case{Src: "f(" + a + ")"}
+		}
+		return C17Case{Src: "$x[" + a + "] ? " + a + " : -(" + a + ")"}
+	}
 	g := &gen.G{T: t}
 	c := C17Case{Expr: g.SyntaxExpr(rapid.IntRange(0, scale(4, 6)).Draw(t, "depth"))}
 	if rapid.IntRange(0, 4).Draw(t, "asPrint") == 0 {
